@@ -353,8 +353,17 @@ def grease_classification(ctx, report, rule):
         return
     report.touch(f)
     sites = 0
-    for stmts, how in paths(f.node.body):
-        marks = [i for i, st in enumerate(stmts) if isinstance(st, ast.Assign) and ast.unparse(st.value).endswith('.GREASE')]
+    # the decision may sit in a helper of the class (classification moved out of __attrs_post_init__, memoised ...): every
+    # method of the class that produces the GREASE verdict is a decision site
+    deciders = [f] + [g for k, g in sorted(base.methods.items()) if g is not f and not g.abstract and
+                      any((isinstance(x, (ast.Assign, ast.Return)) and x.value is not None and ast.unparse(x.value).endswith('.GREASE')) for x in ast.walk(g.node))]
+    all_paths = []
+    for g in deciders:
+        if g is not f:
+            report.touch(g)
+        all_paths.extend(paths(g.node.body))
+    for stmts, how in all_paths:
+        marks = [i for i, st in enumerate(stmts) if isinstance(st, (ast.Assign, ast.Return)) and st.value is not None and ast.unparse(st.value).endswith('.GREASE')]
         for i in marks:
             sites += 1
             report.count(rule)
@@ -363,7 +372,7 @@ def grease_classification(ctx, report, rule):
             text = [ast.unparse(t) for t, taken in tests if taken]
             if any(x.replace(' ', '') == 'isinstance(self.code,self.get_grease_enum())' for x in text):
                 continue
-            lookups = [st for st in before if not isinstance(st, tuple) and 'get_grease_enum().from_code(self.code)' in ast.unparse(st)]
+            lookups = [st for st in before if not isinstance(st, tuple) and 'get_grease_enum().from_code(' in ast.unparse(st)]
             if lookups and not any(isinstance(t, tuple) and t[0] == 'except' for t in before[before.index(lookups[-1]):]):
                 continue
             # arithmetic decision: tabulate it
@@ -395,7 +404,7 @@ def tabulate_decision(cls, test, width, want, Evaluator, Unsupported, model=None
     try:
         for code in range(256 ** width):
             def names(name, code=code):
-                if name == 'self.code':
+                if name in ('self.code', 'code'):
                     return code
                 raise Unsupported('free name ' + name)
             ev = Evaluator({}, hook, hook.name_hook_for(cls.module, names))
